@@ -624,6 +624,11 @@ class Frame:
         if isinstance(op, ast.Add) and hasattr(self.ev, "list_times") and (hasattr(a, "length") or hasattr(b, "length")):
             from .segbuf import SegBuf
             return SegBuf(SegBuf.segments_of(a) + SegBuf.segments_of(b), "concatenation")
+        if getattr(self.ev, "keep_fstrings", False):
+            if isinstance(op, ast.Mod) and isinstance(a, str):
+                return _percent_format(a, b)
+            if isinstance(op, ast.Add) and isinstance(a, (str, FStr)) and isinstance(b, (str, FStr)):
+                return FStr(_text_parts(a) + _text_parts(b))
         if isinstance(a, (str, Opaque)) or isinstance(b, (str, Opaque)):
             return Opaque("string-expr")
         if isinstance(a, int) and isinstance(b, int):
@@ -892,6 +897,8 @@ class Frame:
             return Native(lambda ev, a, k, n: _list_method(self, o, attr, a, n), "list." + attr)
         if isinstance(o, dict):
             return Native(lambda ev, a, k, n: _dict_method(self, o, attr, a, n), "dict." + attr)
+        if isinstance(o, str) and attr == "format" and getattr(self.ev, "keep_fstrings", False):
+            return Native(lambda ev, a, k, n: _brace_format(o, a, k), "str.format")
         raise AnalysisError("engine B: attribute %s of %r at %s:%d"
                             % (attr, o, self.mod.name, getattr(node, "lineno", 0)))
 
@@ -1242,7 +1249,80 @@ def _b_anyall(is_any):
     return f
 
 
+def _plain_number(v):
+    """What the decimal presentation types print: the number, whatever the object's own __str__ / __format__."""
+    return Aff(v.c, v.t) if isinstance(v, Aff) and type(v) is not Aff else v
+
+
+def _text_parts(x):
+    return list(x.parts) if isinstance(x, FStr) else [("text", x)]
+
+
+def _percent_format(fmt, arg):
+    """`fmt % arg` kept as the parts of an f-string: %d/%i print the decimal number, %s/%r the object's own text."""
+    import re as _re
+    args = list(arg) if isinstance(arg, (tuple, list)) else [arg]
+    parts, pos, k = [], 0, 0
+    for m in _re.finditer(r"%([-+ #0]*)(\d*)(?:\.\d+)?([a-zA-Z%])", fmt):
+        if m.start() > pos:
+            parts.append(("text", fmt[pos:m.start()]))
+        pos = m.end()
+        conv = m.group(3)
+        if conv == "%":
+            parts.append(("text", "%"))
+            continue
+        if k >= len(args) or m.group(1) or m.group(2):
+            return Opaque("string-expr")
+        v = args[k]
+        k += 1
+        if conv in "di":
+            parts.append(("value", _plain_number(v)))
+        elif conv in "sr":
+            parts.append(("value", v))
+        else:
+            return Opaque("string-expr")
+    if pos < len(fmt):
+        parts.append(("text", fmt[pos:]))
+    return FStr(parts) if k == len(args) else Opaque("string-expr")
+
+
+def _brace_format(fmt, args, kw):
+    """`fmt.format(*args)` kept as the parts of an f-string (auto-numbered or numbered fields; `:d` prints the number)."""
+    import string
+    parts, auto = [], 0
+    try:
+        fields = list(string.Formatter().parse(fmt))
+    except ValueError:
+        return Opaque("string-expr")
+    for text, name, spec, conv in fields:
+        if text:
+            parts.append(("text", text))
+        if name is None:
+            continue
+        if name == "":
+            idx, auto = auto, auto + 1
+        elif name.isdigit():
+            idx = int(name)
+        elif name in kw:
+            idx = None
+        else:
+            return Opaque("string-expr")
+        v = kw[name] if idx is None else (args[idx] if idx < len(args) else None)
+        if v is None or conv not in (None, "s", "r") or spec not in ("", "d"):
+            return Opaque("string-expr")
+        parts.append(("value", _plain_number(v) if spec == "d" and conv is None else v))
+    return FStr(parts)
+
+
+def _b_str(ev, args, kw, node):
+    if getattr(ev, "keep_fstrings", False) and len(args) == 1:
+        return args[0] if isinstance(args[0], (str, FStr)) else FStr([("value", args[0])])
+    return Opaque("str()")
+
+
 BUILTINS = {
+    "str": _b_str,
+    "repr": _b_str,
     "sum": _b_sum,
     "zip": _b_zip,
     "enumerate": _b_enumerate,
